@@ -89,7 +89,7 @@ class C16(Prop):
         b = templates.build_model(rng, weights=SMALL if case != "real-unbounded" else None,
                                   n=rng.choice([1, 2]), decorations=deco)
         ops = list(b.ops)
-        plan = {"case": case, "opts": {}, "twin": None}
+        plan = {"case": case, "opts": {"dump_seam": case == "real-unbounded"}, "twin": None}
         transport = rng.choice(["cvxpy", "mosek"])
         solve = draw_solve(rng, b.P, "tau", peer_mode="tagged", allow_mosek=False)
         if transport == "mosek":
@@ -219,10 +219,14 @@ class C16(Prop):
                                      + (out.get("transports") or ["?"])[0],
                                      "detail": {"status": op["peer"]["script"]["1"]["status"], "value": val}})
                 elif exp and exp.startswith("none-real") and out.get("ncalls"):
-                    if out.get("status") == "ok" and val is not None:
-                        # only judged when the real peer itself reported no solution
-                        pass
-                    judged += 1
+                    # judged only when the real peer itself reported that there is no solution
+                    st = ((out.get("seam") or [{}])[0]).get("status")
+                    if st in ("infeasible", "unbounded", "infeasible_inaccurate", "unbounded_inaccurate"):
+                        judged += 1
+                        if out.get("status") == "ok" and val is not None:
+                            viol.append({"oracle": "O-ERR", "signature": "solve-returns-a-number-for-a-model-the-solver-found-"
+                                         + st.split("_")[0] + ":" + (out.get("transports") or ["?"])[0],
+                                         "detail": {"value": val, "kind": exp}})
                 elif exp == "raise":
                     judged += 1
                     if out.get("status") != "exc":
@@ -256,6 +260,8 @@ class C16(Prop):
                         viol.append({"oracle": "O-ERR", "signature": "dual-tables-of-numbers-before-success",
                                      "detail": {"state": plan.get("state")}})
                     continue
+                if out.get("status") == "ok" and out.get("leafless"):
+                    continue   # a constant: its value is not a solution, returning it fabricates nothing
                 if out.get("status") == "ok":
                     viol.append({"oracle": "O-ERR", "signature": "%s-returns-a-value-before-success:%s" % (acc, kind),
                                  "detail": {"state": plan.get("state"), "value": str(out.get("value"))[:100]}})
